@@ -53,3 +53,28 @@ def _(cls, operands, ops):
     ensures(forall(lambda k: implies(0 <= k and k < len(operands), operands[k].g_ts is result._token_store), operands[k]))
     ensures(forall(lambda k: implies(0 <= k and k < len(ops), ops[k].g_ts is result._token_store), ops[k]))
     ensures(result._raw_operands is operands and result._raw_ops is ops)
+
+# ---- clone of a product / a sum: operand k of the copy is the clone of operand k, operator k the clone of operator k - same order (C11)
+UFUNS = {'CLONE': ['int', 'int', 'int', 'int']}
+
+@contract('RawModel.clone')
+def _(self, token_store, token_transformer):
+    modifies()
+    functional('CLONE')
+
+@contract('NumberMulExpr.clone')
+def _(self, token_store, token_transformer):
+    functional('CLONE')      # (names the result for the pointwise description of NumberAddExpr.clone; CLONE is uninterpreted)
+    requires(self != None and NonNull(self._raw_operands) and NonNull(self._raw_ops))
+    modifies('RawTreeModel._token_store@fresh', 'NumberMulExpr._raw_operands@fresh', 'NumberMulExpr._raw_ops@fresh', 'list[NumberAtomExpr]@fresh', 'list[MulOp]@fresh')
+    ensures(result != None and fresh(result) and result._token_store is token_store)
+    ensures(len(result._raw_operands) == len(self._raw_operands) and forall(lambda k: implies(0 <= k and k < len(self._raw_operands), result._raw_operands[k] == CLONE(self._raw_operands[k], token_store, token_transformer)), result._raw_operands[k]))
+    ensures(len(result._raw_ops) == len(self._raw_ops) and forall(lambda k: implies(0 <= k and k < len(self._raw_ops), result._raw_ops[k] == CLONE(self._raw_ops[k], token_store, token_transformer)), result._raw_ops[k]))
+
+@contract('NumberAddExpr.clone')
+def _(self, token_store, token_transformer):
+    requires(self != None and NonNull(self._raw_operands) and NonNull(self._raw_ops))
+    modifies('RawTreeModel._token_store@fresh', 'NumberAddExpr._raw_operands@fresh', 'NumberAddExpr._raw_ops@fresh', 'list[NumberMulExpr]@fresh', 'list[AddOp]@fresh')
+    ensures(result != None and fresh(result) and result._token_store is token_store)
+    ensures(len(result._raw_operands) == len(self._raw_operands) and forall(lambda k: implies(0 <= k and k < len(self._raw_operands), result._raw_operands[k] == CLONE(self._raw_operands[k], token_store, token_transformer)), result._raw_operands[k]))
+    ensures(len(result._raw_ops) == len(self._raw_ops) and forall(lambda k: implies(0 <= k and k < len(self._raw_ops), result._raw_ops[k] == CLONE(self._raw_ops[k], token_store, token_transformer)), result._raw_ops[k]))
